@@ -266,7 +266,8 @@ def case_strategy(draw):
                                             "_pyroDaemon", "__doc__", "__module__", "__slots__", "__wrapped__"]), max_size=3))
     reqs = []
     for n in names:
-        kinds = draw(st.lists(st.sampled_from(["call", "batch", "oneway", "getattr", "setattr"]), min_size=1, max_size=3, unique=True))
+        kinds = draw(st.lists(st.sampled_from(["call", "batch", "oneway", "getattr", "setattr", "getattr+F", "setattr+F", "getattr+0", "setattr+N", "getattr+kw", "setattr+kw"]),
+                              min_size=1, max_size=3, unique=True))
         for k in kinds:
             reqs.append([k, n])
     for v in draw(st.lists(st.sampled_from(range(len(NONSTRING))), max_size=2)):
@@ -358,6 +359,9 @@ def run_case(case, servertype=None, keep=False):
                     continue
                 if case.get("ser") == "msgpack" and isinstance(name, tuple):
                     name = list(name)
+            surplus = None
+            if "+" in kind:
+                kind, surplus = kind.split("+")       # attribute request carrying surplus arguments (ignored by a correct server)
             want = served(resolved, kind, name)
             if kind == "call" and type(name) is str and name in p._pyroOneway:
                 kind = "oneway"       # the proxy knows from the metadata that this method is oneway and sends it as such
@@ -376,9 +380,11 @@ def run_case(case, servertype=None, keep=False):
                     if r and type(r[0]).__name__ == "_ExceptionWrapper":
                         outcome = ("err", r[0].exception)
                 elif kind == "getattr":
-                    outcome = ("ok", p._pyroInvoke("__getattr__", (name,), None))
+                    extra = {"F": (False,), "0": (0,), "N": (None,), "kw": ()}.get(surplus, ())
+                    outcome = ("ok", p._pyroInvoke("__getattr__", (name,) + extra, {"only_exposed": False} if surplus == "kw" else None))
                 elif kind == "setattr":
-                    outcome = ("ok", p._pyroInvoke("__setattr__", (name, token), None))
+                    extra = {"F": (False,), "0": (0,), "N": (None,), "kw": ()}.get(surplus, ())
+                    outcome = ("ok", p._pyroInvoke("__setattr__", (name, token) + extra, {"only_exposed": False} if surplus == "kw" else None))
             except errors.CommunicationError as x:
                 outcome = ("comm", x)
             except Exception as x:
@@ -458,8 +464,8 @@ def _nontrivial(case):
         return False
     has_inherited = any(m["where"] == "base" for m in resolved.values())
     has_prop = any(m["kind"].startswith("prop") for m in resolved.values())
-    refused_existing = any(type(n) is str and n in resolved and served(resolved, k, n) is None for k, n in case["reqs"])
-    served_noncall = any(type(n) is str and k != "call" and served(resolved, k, n) in ("call", "get", "set") for k, n in case["reqs"])
+    refused_existing = any(type(n) is str and n in resolved and served(resolved, k.split("+")[0], n) is None for k, n in case["reqs"])
+    served_noncall = any(type(n) is str and k != "call" and served(resolved, k.split("+")[0], n) in ("call", "get", "set") for k, n in case["reqs"])
     return has_inherited and has_prop and (refused_existing or served_noncall)
 
 
@@ -486,6 +492,9 @@ def _labels(case):
         if type(n) is not str:
             l.append("req:nonstring")
             continue
+        if "+" in k:
+            l.append("req:surplus-args")
+        k = k.split("+")[0]
         w = served(resolved, k, n)
         l.append("req:%s:%s" % (k, "served" if w in ("call", "get", "set") else "refused-existing" if n in resolved else "refused-unknown"))
     return l
